@@ -36,6 +36,8 @@ type c45Node struct {
 	Name string     `json:"name"`
 	Text string     `json:"text,omitempty"`
 	Attr bool       `json:"attr,omitempty"`
+	Raw  string     `json:"raw,omitempty"`  // lexical form of the leading text when it differs from Text (CDATA, comment or PI splitting it)
+	Tail string     `json:"tail,omitempty"` // character data after the last child, before the end tag
 	Kids []*c45Node `json:"kids,omitempty"`
 }
 
@@ -78,10 +80,27 @@ func c45Shapes(n, maxDepth int) [][]int {
 	return out
 }
 
-func c45Build(parent []int, names, texts []int, attrs []bool) *c45Node {
+// c45Lex: lexical variants of an element's leading character data (raw XML, resulting text): the
+// decoder delivers these as more than one CharData token or through a CDATA section.
+var c45Lex = []struct{ raw, val string }{
+	{"x", "x"},
+	{"x<!--c-->y", "xy"},
+	{"<![CDATA[x]]>", "x"},
+	{"x<![CDATA[y]]>", "xy"},
+	{"x<?p q?>\n", "x\n"},
+	{"", ""},
+}
+var c45Tails = []string{"", " \n ", "z"}
+
+func c45Build(fam *c45Family, parent []int, names, texts []int, attrs []bool) *c45Node {
 	nodes := make([]*c45Node, len(parent))
 	for i := range parent {
-		nodes[i] = &c45Node{Name: c45Names[names[i]], Text: c45Texts[texts[i]], Attr: attrs[i]}
+		if fam.lex {
+			lx := c45Lex[texts[i]%len(c45Lex)]
+			nodes[i] = &c45Node{Name: c45Names[names[i]], Text: lx.val, Raw: lx.raw, Tail: c45Tails[texts[i]/len(c45Lex)], Attr: attrs[i]}
+		} else {
+			nodes[i] = &c45Node{Name: c45Names[names[i]], Text: c45Texts[texts[i]], Attr: attrs[i]}
+		}
 		if parent[i] >= 0 {
 			nodes[parent[i]].Kids = append(nodes[parent[i]].Kids, nodes[i])
 		}
@@ -96,10 +115,15 @@ func (n *c45Node) write(sb *strings.Builder) {
 		sb.WriteString(` k="v"`)
 	}
 	sb.WriteByte('>')
-	sb.WriteString(n.Text)
+	if n.Raw != "" {
+		sb.WriteString(n.Raw)
+	} else {
+		sb.WriteString(n.Text)
+	}
 	for _, k := range n.Kids {
 		k.write(sb)
 	}
+	sb.WriteString(n.Tail)
 	sb.WriteString("</")
 	sb.WriteString(n.Name)
 	sb.WriteByte('>')
@@ -118,7 +142,7 @@ func c45Ref(n *c45Node, out *[]c45RefSeg) {
 	}
 	f := map[string][]string{}
 	for _, k := range n.Kids {
-		if v := strings.TrimSpace(k.Text); v != "" {
+		if v := strings.TrimSpace(k.Text + k.Tail); v != "" {
 			f[k.Name] = append(f[k.Name], v)
 		}
 	}
@@ -368,6 +392,7 @@ type c45Family struct {
 	name    string
 	texts   []int    // per-element text alphabet (indices into c45Texts)
 	attrs   []bool   // per-element attribute alphabet
+	lex     bool     // texts index c45Lex x c45Tails (text split into several character-data chunks) instead of c45Texts
 	subsets []uint   // per-present-name route-subset alphabet (nil => use global configs)
 	global  []string // global config generators when subsets == nil
 }
@@ -405,9 +430,10 @@ func (c *c45Collector) add(key string, f c45Found) {
 func TestVerifC45(t *testing.T) {
 	rep := vh.New(t, "C45")
 	defer rep.Finish()
-	rep.Rule = "cases = (XML tree built by the generator, routing config); families: routing = every tree (names only, text x on every element) x every assignment of each present name to a subset of the 4 routes; content = every tree with per-element name x text{none,x,whitespace} x attribute{none,one} x every assignment of each present name to {no route, Items, Dates}; shape = every tree up to 5 elements (names only) x 3 global configs; signature = family | shape (parent vector) | verdict class | element count | per-route expected counts | expected field count; non-trivial = at least one element is routed, or the run deviates from the reference"
+	rep.Rule = "cases = (XML tree built by the generator, routing config); families: routing = every tree (names only, text x on every element) x every assignment of each present name to a subset of the 4 routes; chunks = every tree (3 names) with per-element leading text in 6 lexical forms x 3 tail texts x every assignment of each present name to {no route, Items, Dates}; content = every tree with per-element name x text{none,x,whitespace} x attribute{none,one} x every assignment of each present name to {no route, Items, Dates}; shape = every tree up to 5 elements (names only) x 3 global configs; signature = family | shape (parent vector) | verdict class | element count | per-route expected counts | expected field count; non-trivial = at least one element is routed, or the run deviates from the reference"
 	rep.Assumptions = []string{
-		"well-formed input only (generator emits <N k=\"v\">text<children/></N>, text before the children, no namespaces/comments/CDATA)",
+		"well-formed input only (generator emits <N k=\"v\">text<children/>tail</N>; comments, processing instructions and CDATA only inside the chunks family; no namespaces)",
+		"an element's text is the concatenation of its direct character data (comments/PIs contribute nothing, CDATA its content)",
 		"'non-empty text' is read as non-empty after trimming whitespace; two same-named children with text: Fields may hold either value",
 		"configuring a name that does not occur in the document is not enumerated (no element to route)",
 	}
@@ -443,6 +469,11 @@ func TestVerifC45(t *testing.T) {
 	}
 	routing := &c45Family{name: "routing", texts: []int{1}, attrs: []bool{false}, subsets: all16}
 	content := &c45Family{name: "content", texts: []int{0, 1, 2}, attrs: []bool{false, true}, subsets: []uint{0, 1, 8}}
+	chunkTexts := make([]int, len(c45Lex)*len(c45Tails))
+	for i := range chunkTexts {
+		chunkTexts[i] = i
+	}
+	chunks := &c45Family{name: "chunks", lex: true, texts: chunkTexts, attrs: []bool{false}, subsets: []uint{0, 1, 8}}
 	shape := &c45Family{name: "shape", texts: []int{1}, attrs: []bool{false}, global: []string{"none", "all->Items", "all->all4"}}
 	// blocks are enumerated in this order (smallest first; a deadline cap can only cut the tail)
 	type block struct {
@@ -452,12 +483,12 @@ func TestVerifC45(t *testing.T) {
 	}
 	var blocks []block
 	for n := 1; n <= 3; n++ {
-		blocks = append(blocks, block{routing, n, 6}, block{content, n, 6})
+		blocks = append(blocks, block{routing, n, 6}, block{content, n, 6}, block{chunks, n, 3})
 	}
 	for n := 1; n <= 5; n++ {
 		blocks = append(blocks, block{shape, n, 6})
 	}
-	maxEl := map[string]string{"routing": "<=3 elements, 6 names", "content": "<=3 elements, 6 names", "shape": "<=5 elements, 6 names"}
+	maxEl := map[string]string{"routing": "<=3 elements, 6 names", "content": "<=3 elements, 6 names", "chunks": "<=3 elements, names {A,B,ITEM}; per element leading text in 6 lexical forms (plain, split by a comment, CDATA, text+CDATA, split by a PI, none) x tail text after the children {none, whitespace, z}", "shape": "<=5 elements, 6 names"}
 	if vh.Thorough() {
 		blocks = append(blocks, block{routing, 4, 4}, block{content, 4, 4})
 		maxEl["routing"] += "; 4 elements, names {A,B,ITEM,LINK}"
@@ -600,7 +631,7 @@ func c45RunJob(rep *vh.Report, col *c45Collector, j c45Job) {
 	sigs := map[string]bool{}
 	var rec func(i int)
 	run := func() {
-		tree := c45Build(j.parent, j.names, texts, attrs)
+		tree := c45Build(fam, j.parent, j.names, texts, attrs)
 		var sb strings.Builder
 		tree.write(&sb)
 		raw := []byte(sb.String())
